@@ -331,10 +331,13 @@ PROPS = {
     },
     "C25": {
         "title": "Iterators visit every instruction exactly once in order",
-        "units": ["V5_iter"],
+        "units": ["V5_iter", "V4b_iter_inject"],
         "obligations": ["V5_iter.FuncSubIterator.*", "V5_iter.fn:FuncSubIterator::*", "V5_iter.ModuleSubIterator.*", "V5_iter.fn:ModuleSubIterator::*",
-                        "V5_iter.handle_skips.*", "V5_iter.fn:lemma_next_live", "V5_iter.fn:next_live"],
-        "glue": ["ModuleIterator::{new,next,curr_loc,curr_op,reset} forward to the sub-iterator (module_iterator.rs) and Module::get_func_metadata builds the (function, #instructions) list: not under contract",
+                        "V5_iter.handle_skips.*", "V5_iter.fn:lemma_next_live", "V5_iter.fn:next_live",
+                        "V4b_iter_inject.get_func_metadata.*", "V4b_iter_inject.fn:Module::get_func_metadata", "V4b_iter_inject.ModuleIterator.new.*", "V4b_iter_inject.fn:ModuleIterator::new",
+                        "V4b_iter_inject.ModuleIterator.curr_op.*", "V4b_iter_inject.ModuleIterator.next.*", "V4b_iter_inject.fn:ModuleIterator as Iterator::*", "V4b_iter_inject.fn:lemma_metadata_members", "V4b_iter_inject.fn:Functions::get"],
+        "glue": ["ModuleIterator::{new,next,curr_loc,curr_op,reset} and Module::get_func_metadata are under contract in V4b against the sub-iterator contracts that V5 proves (assumed there in a weaker form); rule R20 replaces the call of the forwarding method Functions::iter (return type `impl Iterator`) by the trait call it forwards to",
+                 "that the module and the iterator stay consistent while the iterator is used (injections do not change instruction counts) is the precondition `consistent()` of every call: established by `new`, re-established by `next` / `reset`, not threaded through the injection methods",
                  "profile: every listed function has at least one instruction (a parsed body ends with `end`)"],
         "design_ref": "DESIGN.md §4 V5, §5 C25",
         "level_text": "Start state, successor step (same function / first instruction of the next unskipped function / exhausted) and reported location + end flag of the sub-iterators are proved for all metadata and skip lists, including empty and all-skipped; 'exactly once, in order' is the induction over these step contracts.",
